@@ -255,6 +255,112 @@
                 self.rejected == b0.rejected,
                 self.unsafe_vrps == b0.unsafe_vrps,
                 self.exceptions == b0.exceptions,
+//@ fn PubPoint::add_roa
+//@ spec
+    requires
+        old(self).origins@.len() + roa.origins_spec().len() <= usize::MAX,
+    ensures
+        // C09: exactly the ROA's origins that are not longer than the configured
+        // limit of their address family are added (in order, each tagged with the ROA's info)
+        final(self).origins@ == old(self).origins@ + roa_kept(roa.origins_spec(), roa.origins_spec().len() as int,
+                                                               limit_v4_len, limit_v6_len, info),
+        res == (roa_kept(roa.origins_spec(), roa.origins_spec().len() as int, limit_v4_len, limit_v6_len, info).len() > 0),
+        // frame
+        final(self).router_keys == old(self).router_keys, final(self).aspas == old(self).aspas,
+        final(self).refresh == old(self).refresh, final(self).orig_refresh == old(self).orig_refresh,
+        final(self).tal_index == old(self).tal_index, final(self).repository_index == old(self).repository_index,
+//@ entry
+        let ghost all = roa.origins_spec();
+//@ loop 1
+            invariant
+                iter_1.obeys_prophetic_iter_laws(), iter_1.decrease() is Some,
+                all == roa.origins_spec(),
+                iter_1.remaining().len() <= all.len(),
+                iter_1.remaining() == all.skip(all.len() - iter_1.remaining().len()),
+                old(self).origins@.len() + all.len() <= usize::MAX,
+                roa_kept(all, all.len() - iter_1.remaining().len(), limit_v4_len, limit_v6_len, info).len()
+                    <= all.len() - iter_1.remaining().len(),
+                // C09
+                self.origins@ == old(self).origins@ + roa_kept(all, all.len() - iter_1.remaining().len(),
+                                                              limit_v4_len, limit_v6_len, info),
+                any == (roa_kept(all, all.len() - iter_1.remaining().len(), limit_v4_len, limit_v6_len, info).len() > 0),
+                self.router_keys == old(self).router_keys, self.aspas == old(self).aspas,
+                self.refresh == old(self).refresh, self.orig_refresh == old(self).orig_refresh,
+                self.tal_index == old(self).tal_index, self.repository_index == old(self).repository_index,
+            ensures
+                iter_1.remaining().len() == 0,
+            decreases iter_1.decrease()->Some_0,
+//@ loopentry 1
+                assert(iter_1.remaining().len() > 0 ==>
+                    iter_1.remaining()[0] == all[all.len() - iter_1.remaining().len()]
+                    && iter_1.remaining().skip(1) == all.skip(all.len() - iter_1.remaining().len() + 1));
+//@ fn PayloadCollection::from_vec
+//@ spec
+    ensures
+        // C09: each item appears exactly as often as in the input (with unique map keys: once)
+        res.vec@.to_multiset() == vec@.to_multiset(),
+//@ fn PubPoint::update_refresh
+//@ spec
+    ensures
+        final(self).origins == old(self).origins, final(self).router_keys == old(self).router_keys,
+        final(self).aspas == old(self).aspas, final(self).orig_refresh == old(self).orig_refresh,
+        final(self).tal_index == old(self).tal_index, final(self).repository_index == old(self).repository_index,
+        final(self).refresh.secs() <= refresh.secs(), final(self).refresh.secs() <= old(self).refresh.secs(),
+//@ fn PubPoint::add_router_key
+//@ spec
+    ensures
+        final(self).router_keys@ == old(self).router_keys@.push(PubRouterKey { asns, key_id, key_info, info }),
+        final(self).origins == old(self).origins, final(self).aspas == old(self).aspas,
+        final(self).refresh == old(self).refresh, final(self).orig_refresh == old(self).orig_refresh,
+        final(self).tal_index == old(self).tal_index, final(self).repository_index == old(self).repository_index,
+//@ fn PubPoint::add_aspa
+//@ spec
+    ensures
+        final(self).aspas@ == old(self).aspas@.push(
+            PubAspa { customer: aspa.customer_spec(), providers: aspa.providers_spec(), info }),
+        final(self).origins == old(self).origins, final(self).router_keys == old(self).router_keys,
+        final(self).refresh == old(self).refresh, final(self).orig_refresh == old(self).orig_refresh,
+        final(self).tal_index == old(self).tal_index, final(self).repository_index == old(self).repository_index,
+//@ fn PubPointProcessor::process_router_cert
+//@ spec
+    ensures
+        // C09: router keys from published objects appear only when BGPsec processing is enabled
+        !old(self).report.enable_bgpsec ==> final(self).pub_point == old(self).pub_point,
+        // and then at most the one key of this certificate, for the AS resources of the certificate
+        final(self).pub_point.router_keys@ == old(self).pub_point.router_keys@
+        || (final(self).pub_point.router_keys@.len() == old(self).pub_point.router_keys@.len() + 1
+            && final(self).pub_point.router_keys@.drop_last() == old(self).pub_point.router_keys@
+            && Ok::<AsBlocks, AsBlocksError>(final(self).pub_point.router_keys@.last().asns) == cert.as_resources_spec().blocks_spec()
+            && final(self).pub_point.router_keys@.last().key_id == cert.ski_spec()),
+        final(self).pub_point.origins == old(self).pub_point.origins,
+        final(self).pub_point.aspas == old(self).pub_point.aspas,
+        final(self).report == old(self).report,
+//@ fn PubPointProcessor::process_roa
+//@ spec
+    requires
+        old(self).pub_point.origins@.len() + route.origins_spec().len() <= usize::MAX,
+    ensures
+        // C09: the configured IPv4 / IPv6 limits of the report are the ones applied to the ROA
+        exists|info: Arc<PublishInfo>| final(self).pub_point.origins@ == old(self).pub_point.origins@
+            + #[trigger] roa_kept(route.origins_spec(), route.origins_spec().len() as int,
+                       old(self).report.limit_v4_len, old(self).report.limit_v6_len, info),
+        final(self).pub_point.router_keys == old(self).pub_point.router_keys,
+        final(self).pub_point.aspas == old(self).pub_point.aspas,
+        final(self).report == old(self).report,
+//@ fn PubPointProcessor::process_aspa
+//@ spec
+    ensures
+        // C09: ASPAs from published objects appear only when ASPA processing is enabled
+        !old(self).report.enable_aspa ==> final(self).pub_point == old(self).pub_point,
+        old(self).report.enable_aspa ==> {
+            &&& final(self).pub_point.aspas@.len() == old(self).pub_point.aspas@.len() + 1
+            &&& final(self).pub_point.aspas@.drop_last() == old(self).pub_point.aspas@
+            &&& final(self).pub_point.aspas@.last().customer == aspa.customer_spec()
+            &&& final(self).pub_point.aspas@.last().providers == aspa.providers_spec()
+        },
+        final(self).pub_point.origins == old(self).pub_point.origins,
+        final(self).pub_point.router_keys == old(self).pub_point.router_keys,
+        final(self).report == old(self).report,
 //@ global
 // C08: a VRP is unsafe iff its prefix shares an address with the rejected
 // resources (of its own family)
@@ -317,4 +423,25 @@ spec fn origins_added(b: &SnapshotBuilder, s: Seq<PubRouteOrigin>, n: int) -> Se
     if n <= 0 { b.origins@.dom() }
     else if admits_origin(b, s[n - 1].origin) { origins_added(b, s, n - 1).insert(s[n - 1].origin) }
     else { origins_added(b, s, n - 1) }
+}
+
+// C09: is a ROA origin within the configured prefix length limit of its family?
+spec fn within_limit(o: RouteOrigin, limit_v4_len: Option<u8>, limit_v6_len: Option<u8>) -> bool {
+    let limit = if o.prefix.prefix_spec().is_v4_spec() { limit_v4_len } else { limit_v6_len };
+    match limit {
+        Some(l) => o.prefix.prefix_spec().len_spec() <= l,
+        None => true,
+    }
+}
+
+// the published origins produced from the first n origins of a ROA
+spec fn roa_kept(s: Seq<RouteOrigin>, n: int, limit_v4_len: Option<u8>, limit_v6_len: Option<u8>,
+                 info: Arc<PublishInfo>) -> Seq<PubRouteOrigin>
+    decreases n
+{
+    if n <= 0 { Seq::empty() }
+    else if within_limit(s[n - 1], limit_v4_len, limit_v6_len) {
+        roa_kept(s, n - 1, limit_v4_len, limit_v6_len, info).push(PubRouteOrigin { origin: s[n - 1], info })
+    }
+    else { roa_kept(s, n - 1, limit_v4_len, limit_v6_len, info) }
 }
